@@ -28,6 +28,7 @@ def macro_sets(rng, n):
         h = HEAD + '#include "qemu/osdep.h"\n' \
             "#ifdef QEMU_GENERATE\n#define fLOAD(DST) gen_load(DST)\n#else\n#define fLOAD(DST) DST = mem_load_u8(EA)\n#endif\n" \
             "#ifdef CONFIG_USER_ONLY\n#define fPRIV() user_only()\n#endif\n" \
+            "#ifndef CONFIG_USER_ONLY\n#define fSYS(X) sys_only(X)\n#define fSTORE(V) mem_store_u64(EA, V)\n#endif\n" \
             "#define fMASK(N) \\\n    ((1 << \\\n      (N)) - 1)\n" \
             "// a line comment between macros\n" \
             "#define fSAT(A) (((A) > 127) ? 127 : (A)) /* trailing comment */\n" \
@@ -47,7 +48,8 @@ def macro_sets(rng, n):
             'DEF_SHORTCODE(T4_store, { fEA(uiV); fSTORE(fSAT(RtV)); })\n' \
             'DEF_SHORTCODE(T5_nest, { RdV = fNEST(RsV, 3) + fUSERONLY(RtV); })\n' \
             'DEF_SHORTCODE(T6_seq, { fSEQ(fMASK(4)); fSEQ(RsV); })\n' \
-            'DEF_SHORTCODE(T7_vec, { RdV = fVEC(fINC_GUARD_DUMMY(RsV)); })\n'
+            'DEF_SHORTCODE(T7_vec, { RdV = fVEC(fINC_GUARD_DUMMY(RsV)); })\n' \
+            'DEF_SHORTCODE(T8_sys, { RdV = fSYS(RsV) + fADD(1, 2); })\n'
         out.append((inc, h, mm, patches, sc))
     return out
 
